@@ -502,6 +502,11 @@ pub fn run(check: &mut Check) {
         if sc.name.starts_with("kv2-") && si % (if tier == Tier::Quick { 12 } else { 1 }) != 0 {
             continue;
         }
+        // the free-list boundary walk is a crash-engine script (its bulk commits have hundreds of
+        // calls, and they grow the file, which the variants holding a reader on this thread cannot do)
+        if sc.name.starts_with("flb-") {
+            continue;
+        }
         for (step, a) in sc.actions.iter().enumerate() {
             if !matches!(a, Action::Tx { commit: true, .. }) {
                 continue;
